@@ -824,7 +824,8 @@ impl Check for C14 {
                                    Tier::Thorough => cycctx::CONFIGS.iter().map(|c| json!(c)).collect::<Vec<_>>(),
                                },
                                "declaration_orders": "all k!", "symbol_orders": "all k!",
-                               "order_pairs": cfg.tier.pick("k <= 4: all k! x k!; k = 5: the 1800 pairs with (i + j) % 8 == 0", "all k! x k!"),
+                               "order_pairs": cfg.tier.pick("k <= 4: all k! x k!; k = 5: the 1800 pairs with (i + j) % 8 == 0", "all k! x k! (non-plain access forms with k = 5: the 1800 pairs with (i + j) % 8 == 0)"),
+                               "access_forms": "every case once with the plain read and once with one of the 9 other access forms in rotation",
                                "name_sets": cycctx::name_sets().iter().map(|s| json!(s.as_ref().ok())).collect::<Vec<_>>(),
                                "name_sets_per_case": cfg.tier.pick("1 of 8 in rotation", "k <= 4: all 8; k = 5: 1 of 8 in rotation"),
                                "rejected_cases_stop_after_type_checking": true}}),
